@@ -598,3 +598,162 @@ pub fn large_unit(unit: u64, ctx: &mut Ctx, ctl: &mut UnitCtl) {
         ctl.after_case(ctx, || Scenario::Foreign(scn.clone()));
     }
 }
+
+// ---------------------------------------------------------------------------------------------
+// Sparse sources: a .shp of up to 4 GiB in which only the header and a few records are real
+// bytes (everything else is filler), so that records can sit at and beyond the 2 GiB boundary.
+
+#[derive(Clone, Debug, Serialize, Deserialize)]
+pub struct SparseScn {
+    pub ty: i32,
+    /// offset of each record header, in 16-bit words, in index order
+    pub offsets: Vec<u32>,
+    /// declared file length in words (None = just past the last record)
+    #[serde(default)]
+    pub declared_words: Option<u32>,
+}
+
+pub struct SparseSrc {
+    len: u64,
+    extents: Vec<(u64, Vec<u8>)>,
+    pos: u64,
+    pub reads: u64,
+}
+
+impl std::io::Read for SparseSrc {
+    fn read(&mut self, buf: &mut [u8]) -> std::io::Result<usize> {
+        self.reads += 1;
+        let n = (buf.len() as u64).min(self.len.saturating_sub(self.pos)) as usize;
+        for (i, b) in buf[..n].iter_mut().enumerate() {
+            let p = self.pos + i as u64;
+            *b = 0xEE;
+            for (start, data) in &self.extents {
+                if p >= *start && p < *start + data.len() as u64 {
+                    *b = data[(p - *start) as usize];
+                    break;
+                }
+            }
+        }
+        self.pos += n as u64;
+        Ok(n)
+    }
+}
+
+impl std::io::Seek for SparseSrc {
+    fn seek(&mut self, to: std::io::SeekFrom) -> std::io::Result<u64> {
+        let t: i128 = match to {
+            std::io::SeekFrom::Start(n) => n as i128,
+            std::io::SeekFrom::End(d) => self.len as i128 + d as i128,
+            std::io::SeekFrom::Current(d) => self.pos as i128 + d as i128,
+        };
+        if t < 0 {
+            return Err(std::io::Error::new(std::io::ErrorKind::InvalidInput, "seek before start"));
+        }
+        self.pos = t as u64;
+        Ok(self.pos)
+    }
+}
+
+pub fn execute_sparse(s: &SparseScn, ctx: &mut Ctx) {
+    if !TYPES.contains(&s.ty) || s.offsets.is_empty() || s.offsets.len() > 16 || s.offsets.iter().any(|o| *o < 50 || *o > i32::MAX as u32 - 200) {
+        ctx.fail("HARNESS", "invalid-scenario", "sparse", "bad sparse layout".to_string());
+        return;
+    }
+    // small distinct records; they must not overlap
+    let geoms: Vec<Geom> = (0..s.offsets.len())
+        .map(|i| {
+            let sp = grid_spec(s.ty, 1, if is_point(s.ty) { 1 } else { 2 + i % 3 }, 10 * i + 1);
+            let mut g = Geom { ty: sp.ty, parts: sp.parts.clone(), bbox: if is_point(s.ty) { None } else { Some([0; 8]) } };
+            if is_multipoint(s.ty) {
+                g.parts = vec![Part { kind: -1, pts: sp.parts.iter().flat_map(|p| p.pts.clone()).collect() }];
+            }
+            g
+        })
+        .collect();
+    let mut extents: Vec<(u64, Vec<u8>)> = Vec::new();
+    let mut shx_entries: Vec<(i32, i32)> = Vec::new();
+    let mut end_max = 100u64;
+    for (i, g) in geoms.iter().enumerate() {
+        let content = enc_content(g, has_m(g.ty));
+        let mut rec = Vec::new();
+        rec.extend_from_slice(&(i as i32 + 1).to_be_bytes());
+        rec.extend_from_slice(&((content.len() / 2) as i32).to_be_bytes());
+        rec.extend_from_slice(&content);
+        let start = s.offsets[i] as u64 * 2;
+        for (st, d) in &extents {
+            if start < st + d.len() as u64 && *st < start + rec.len() as u64 {
+                ctx.fail("HARNESS", "invalid-scenario", "sparse", "records overlap".to_string());
+                return;
+            }
+        }
+        end_max = end_max.max(start + rec.len() as u64);
+        shx_entries.push((s.offsets[i] as i32, (content.len() / 2) as i32));
+        extents.push((start, rec));
+    }
+    let words = s.declared_words.map(|w| w as u64).unwrap_or(end_max / 2).min(i32::MAX as u64);
+    if words * 2 < end_max {
+        ctx.fail("HARNESS", "invalid-scenario", "sparse", "declared length does not cover the records".to_string());
+        return;
+    }
+    extents.insert(0, (0, enc_header(s.ty, words as i32, &[0; 8])));
+    let mut shx = enc_header(s.ty, (50 + 4 * geoms.len()) as i32, &[0; 8]);
+    for (o, l) in &shx_entries {
+        shx.extend_from_slice(&o.to_be_bytes());
+        shx.extend_from_slice(&l.to_be_bytes());
+    }
+    let expected: Vec<Geom> = geoms.iter().map(|g| expected_of(&ForRec { number: 0, geom: g.clone(), m_present: has_m(g.ty) })).collect();
+    let src = SparseSrc { len: words * 2, extents, pos: 0, reads: 0 };
+    let what = format!("sparse {} file of {} bytes, records at word offsets {:?}", type_name(s.ty), words * 2, s.offsets);
+    let r = guarded(|| -> Result<(usize, Vec<Item>, Vec<Option<Item>>), shapefile::Error> {
+        let mut rd = shapefile::ShapeReader::with_shx(src, std::io::Cursor::new(shx.clone()))?;
+        let cnt = rd.shape_count()?;
+        let (items, _) = drain(rd.iter_shapes(), geoms.len() + 8);
+        let mut nth = Vec::new();
+        for i in 0..geoms.len() {
+            nth.push(rd.read_nth_shape(i).map(|x| x.map(|s| capture(&s)).map_err(|e| classify(&e))));
+        }
+        Ok((cnt, items, nth))
+    });
+    match r {
+        Err(p) => ctx.fail("C14", "panic", p.site(), format!("{}: {}", what, p.text())),
+        Ok(Err(e)) => ctx.fail("C14", "open", "sparse", format!("{}: {:?}", what, classify(&e))),
+        Ok(Ok((cnt, items, nth))) => {
+            if cnt != geoms.len() {
+                ctx.fail("C14", "shape-count", "sparse", format!("{}: shape_count() = {}", what, cnt));
+            }
+            let ok_items = items.len() == expected.len() && items.iter().zip(expected.iter()).all(|(it, ex)| matches!(it, Ok(g) if diff_foreign(ex, has_m(ex.ty), g).is_none()));
+            if !ok_items {
+                ctx.fail("C14", "same-geometry", "iter_shapes:sparse", format!("{}: iteration yielded {:?}", what, items.iter().map(item_short).collect::<Vec<_>>()));
+            }
+            for (i, x) in nth.iter().enumerate() {
+                if !matches!(x, Some(Ok(g)) if diff_foreign(&expected[i], has_m(expected[i].ty), g).is_none()) {
+                    ctx.fail("C14", "iteration-vs-random-access", "sparse", format!("{}: read_nth_shape({}) = {:?}", what, i, x.as_ref().map(item_short)));
+                    break;
+                }
+            }
+        }
+    }
+    ctx.stats.reach("sparse-file-beyond-2GiB");
+    ctx.stats.distinct.insert(crate::prng::fnv_str(&format!("sparse|{}|{:?}", s.ty, s.offsets)));
+}
+
+/// Records at and beyond the 2 GiB boundary, in non-physical index order.
+pub fn sparse_unit(unit: u64, ctx: &mut Ctx, ctl: &mut UnitCtl) {
+    let ty = TYPES[(unit % 13) as usize];
+    let b = 1u32 << 30;
+    for offsets in [
+        vec![b, 50, b + 400, b - 400, i32::MAX as u32 - 300],
+        vec![b - 300, b + 200],
+        vec![50, 500, b + 1000],
+        vec![i32::MAX as u32 - 400, b, 60],
+        vec![(1 << 29) + 10, (1 << 29) - 400, 3 << 29],
+    ] {
+        let scn = SparseScn { ty, offsets, declared_words: None };
+        if !ctl.before_case(|| Scenario::Sparse(scn.clone())) {
+            continue;
+        }
+        ctx.stats.evaluations += 1;
+        execute_sparse(&scn, ctx);
+        ctl.after_case(ctx, || Scenario::Sparse(scn.clone()));
+    }
+}
